@@ -492,10 +492,17 @@ Qed.
 Lemma list_index_lt len f i : list_index len f = Ok i -> i < len.
 Proof.
   unfold list_index. destruct (atoi f) as [z|]; [|discriminate].
-  destruct (z <? 0)%Z eqn:Hz.
-  - destruct (Z.of_nat len + z <? Z.of_nat len)%Z eqn:H1; [|discriminate].
-    destruct (Z.of_nat len + z <? 0)%Z eqn:H2; [discriminate|]. intros [= <-]. lia.
-  - destruct (z <? Z.of_nat len)%Z eqn:H1; [|discriminate]. rewrite Hz. intros [= <-]. lia.
+  set (z' := if (z <? 0)%Z then (Z.of_nat len + z)%Z else z).
+  destruct ((0 <=? z')%Z && (z' <? Z.of_nat len)%Z) eqn:H; [|discriminate].
+  apply andb_true_iff in H as [H0 H1]. apply Z.leb_le in H0. apply Z.ltb_lt in H1.
+  intros [= <-]. lia.
+Qed.
+
+(* no access through a path can panic on a list index any more *)
+Lemma list_index_no_panic len f : forall site, list_index len f <> Panic site.
+Proof.
+  intros site. unfold list_index. destruct (atoi f); [|discriminate].
+  destruct (_ && _); discriminate.
 Qed.
 
 Lemma map_field_key_set m f v :
@@ -601,10 +608,9 @@ Lemma go_add_at_refines l v i :
   (0 <= i <= Z.of_nat (length l))%Z ->
   go_add_at l v i = Ok (insert_at l (Z.to_nat i) v).
 Proof.
-  intros Hi. unfold go_add_at. rewrite app_length. simpl length.
-  rewrite (proj2 (Z.ltb_ge (i + 1) (0))) by lia.
-  rewrite (proj2 (Z.ltb_ge (Z.of_nat (length l + 1)) (i + 1))) by lia.
-  rewrite (proj2 (Z.ltb_ge (i) (0))) by lia. cbn [orb]. f_equal.
+  intros Hi. unfold go_add_at.
+  rewrite (proj2 (Z.leb_le 0 i)) by lia. rewrite (proj2 (Z.leb_le i (Z.of_nat (length l)))) by lia.
+  cbn [andb]. f_equal.
   set (n := Z.to_nat i). assert (Hn : n <= length l) by lia.
   unfold insert_at.
   assert (Ha : length (firstn n l) = n) by (rewrite firstn_length; lia).
@@ -612,30 +618,28 @@ Proof.
   rewrite firstn_skipn, Ha in G. exact G.
 Qed.
 
-Lemma go_add_at_panics l v i :
-  (i < 0 \/ Z.of_nat (length l) < i)%Z -> exists site, go_add_at l v i = Panic site.
+Lemma go_add_at_errors l v i :
+  (i < 0 \/ Z.of_nat (length l) < i)%Z -> exists e, go_add_at l v i = Err e.
 Proof.
-  intros Hi. unfold go_add_at. rewrite app_length. simpl length.
-  destruct ((i + 1 <? 0)%Z || (Z.of_nat (length l + 1) <? i + 1)%Z) eqn:E; [eauto|].
-  destruct (i <? 0)%Z eqn:E2; [eauto|]. apply orb_false_iff in E as [E0 E1].
-  apply Z.ltb_ge in E0, E1, E2. lia.
+  intros Hi. unfold go_add_at.
+  destruct ((0 <=? i)%Z && (i <=? Z.of_nat (length l))%Z) eqn:E; [|eauto].
+  apply andb_true_iff in E as [E0 E1]. apply Z.leb_le in E0, E1. lia.
 Qed.
 
 Lemma go_del_at_refines l i :
   (0 <= i < Z.of_nat (length l))%Z -> go_del_at l i = Ok (remove_at l (Z.to_nat i)).
 Proof.
   intros Hi. unfold go_del_at, remove_at.
-  rewrite (proj2 (Z.ltb_ge (i) (0))) by lia.
-  rewrite (proj2 (Z.ltb_ge (Z.of_nat (length l)) (i + 1))) by lia.
-  replace (Z.to_nat (i + 1)) with (S (Z.to_nat i)) by lia. reflexivity.
+  rewrite (proj2 (Z.leb_le 0 i)) by lia. rewrite (proj2 (Z.ltb_lt i (Z.of_nat (length l)))) by lia.
+  cbn [andb]. replace (Z.to_nat (i + 1)) with (S (Z.to_nat i)) by lia. reflexivity.
 Qed.
 
-Lemma go_del_at_panics l i :
-  (i < 0 \/ Z.of_nat (length l) <= i)%Z -> exists site, go_del_at l i = Panic site.
+Lemma go_del_at_errors l i :
+  (i < 0 \/ Z.of_nat (length l) <= i)%Z -> exists e, go_del_at l i = Err e.
 Proof.
-  intros Hi. unfold go_del_at. destruct (i <? 0)%Z eqn:E; [eauto|].
-  destruct (Z.of_nat (length l) <? i + 1)%Z eqn:E2; [eauto|].
-  apply Z.ltb_ge in E, E2. lia.
+  intros Hi. unfold go_del_at.
+  destruct ((0 <=? i)%Z && (i <? Z.of_nat (length l))%Z) eqn:E; [|eauto].
+  apply andb_true_iff in E as [E0 E1]. apply Z.leb_le in E0. apply Z.ltb_lt in E1. lia.
 Qed.
 
 Lemma go_concat_refines ls : go_concat ls = concat ls.
